@@ -305,6 +305,63 @@ CompSpace ==
           r \in {<<450, <<4, 2, 0>>>>, <<550, <<5, 1, 1>>>>, <<552, <<5, 3, 4>>>>, <<552, NotSet>>, <<421, NotSet>>}}
 
 ----------------------------------------------------------------------------
+(* histories: one recipient over several delivery attempts of the real queue  *)
+(* h = [mt |-> max_tries, seq |-> the error (a term) attempt i fails with].   *)
+(* The retry decision looks at the error of the attempt, the failure report   *)
+(* must speak of the failure that ended the delivery: given up on a permanent *)
+(* failure => the report is 5yz / 5.x.x; class 4 is legitimate only when the  *)
+(* tries were exhausted on a failure that was still temporary.                *)
+
+HistErrs == {<<[k |-> "smtp", c |-> "t", m |-> "a"]>>, <<[k |-> "smtp", c |-> "p", m |-> "a"]>>,
+             <<[k |-> "plain"]>>, <<[k |-> "temp", b |-> TRUE], [k |-> "smtp", c |-> "p", m |-> "a"]>>}
+HistSpace == UNION {{[mt |-> n, seq |-> q] : q \in [1..n -> HistErrs]} : n \in {2, 3}}
+
+Permanent(t) == Marker(t) = "perm"
+Terminal(h) == IF \E i \in 1..h.mt : Permanent(h.seq[i])
+               THEN CHOOSE i \in 1..h.mt : Permanent(h.seq[i]) /\ \A j \in 1..(i - 1) : ~Permanent(h.seq[j])
+               ELSE h.mt
+HistRule(D, h) ==
+  LET n == Terminal(h)
+      q == QueueRule(D, h.seq[n])
+  IN [attempts |-> n, dsn |-> TRUE, dcode |-> q.code, denh |-> q.enh, status |-> q.enh]
+
+HistViol(h, o) ==
+  LET inrange == o.attempts \in 1..h.mt IN
+  \* temporary failures are retried while tries remain, permanent ones are not retried
+  (IF /\ inrange
+      /\ \A i \in 1..(o.attempts - 1) : ~Permanent(h.seq[i])
+      /\ o.attempts < h.mt => Permanent(h.seq[o.attempts])
+   THEN {} ELSE {"HistRetry"})
+  \* the report agrees with the treatment
+  \cup (IF /\ o.dsn /\ QClassOK(o.dcode, o.denh) /\ o.status = o.denh
+           /\ inrange => (Permanent(h.seq[o.attempts]) => Class(o.dcode) = 5)
+           /\ inrange /\ o.attempts < h.mt => Class(o.dcode) = 5
+        THEN {} ELSE {"HistReport"})
+
+----------------------------------------------------------------------------
+(* the AUTH reply path: the submission endpoint answers a failed SASL         *)
+(* exchange through go-smtp, not through wrapErr.  a = [mech, term]: the      *)
+(* authentication provider fails with the error built from the term.          *)
+
+TxtProvider == <<97, 117, 116, 104, 46, 32, 112, 114, 111, 118, 105, 100, 101, 114>>   \* "auth. provider": names the server's set-up
+AuthInvalidMsg == <<97, 117, 116, 104, 58, 32, 105, 110, 118, 97, 108, 105, 100, 32, 99, 114, 101, 100, 101, 110, 116, 105, 97, 108, 115>>   \* "auth: invalid credentials"
+AuthTerms == {<<[k |-> "plain"]>>, <<[k |-> "net", b |-> TRUE]>>, <<[k |-> "net", b |-> FALSE]>>,
+              <<[k |-> "temp", b |-> TRUE], [k |-> "plain"]>>, <<[k |-> "temp", b |-> FALSE], [k |-> "plain"]>>,
+              <<[k |-> "smtp", c |-> "t", m |-> "a"]>>, <<[k |-> "smtp", c |-> "p", m |-> "a"]>>,
+              <<[k |-> "smtp", c |-> "t", m |-> "u"]>>,
+              <<[k |-> "temp", b |-> TRUE], [k |-> "smtp", c |-> "p", m |-> "a"]>>,
+              <<[k |-> "wrap"], [k |-> "net", b |-> TRUE]>>, <<[k |-> "fields", f |-> "r"], [k |-> "plain"]>>}
+AuthSpace == {[mech |-> m, term |-> t] : m \in {"PLAIN", "LOGIN"}, t \in AuthTerms}
+
+\* every failed exchange is answered with the same fixed reply
+AuthRule(D, a) == [code |-> 454, enh |-> <<4, 7, 0>>, msg |-> AuthInvalidMsg]
+
+AuthViol(a, o) ==
+  (IF EClassOK([code |-> o.code, enh |-> o.enh]) THEN {} ELSE {"AuthClass"})
+  \cup (IF \E x \in InternalTexts(a.term) \cup {TxtProvider} : Occurs(x, o.msg) THEN {"AuthNoLeak"} ELSE {})
+  \cup (IF \E i \in DOMAIN o.msg : o.msg[i] > 127 THEN {"AuthAscii"} ELSE {})
+
+----------------------------------------------------------------------------
 (* model checking: one state per term (CHECK_DEADLOCK FALSE) *)
 
 VARIABLE term
@@ -321,7 +378,11 @@ Emit == Gen => PrintT(<<"ROW", ToJson(term)>>)
 HelpersCoherent == /\ \A h \in HelperSpace :
                         LET o == HelperRule(Devs, h) IN LitCoherent(o.code, o.enh)
                    /\ \A c \in CompSpace : CompCoherent(CompRule(Devs, c))
+                   /\ \A h \in HistSpace : HistViol(h, HistRule(Devs, h)) = {}
+                   /\ \A a \in AuthSpace : AuthViol(a, AuthRule(Devs, a)) = {}
 \* the case list of the computed replies
 EmitComp == Gen /\ Len(term) = 1 /\ term[1].k = "plain" =>
-              PrintT(<<"COMP", ToJson(SetToSeq(CompSpace))>>)
+              /\ PrintT(<<"COMP", ToJson(SetToSeq(CompSpace))>>)
+              /\ PrintT(<<"HIST", ToJson(SetToSeq(HistSpace))>>)
+              /\ PrintT(<<"AUTH", ToJson(SetToSeq(AuthSpace))>>)
 =============================================================================
